@@ -1,6 +1,7 @@
 (* C04 — correspondence cases.  Each case carries the inputs (template, typed parameter values) and what the real code
    reported: the symbolic duration evaluated at the decimal parameter values, and the program's three durations.
-   check_corr: the operational model (sym / cp / loop_duration / wf_duration / sum_pieces / zrange) predicts exactly that.
+   check_corr: the operational model (sym / resolve / cp / loop_duration / to_wf / sum_pieces / zrange) predicts exactly
+   that (to_wf = None: to_waveform raises because the leaves define different channels).
    check_spec: the observation satisfies the property's own specification `den` (Spec.v). *)
 From Coq Require Import ZArith QArith Qround Qabs Bool List.
 Require Import QV.common.Util QV.C04.Model QV.C04.Spec.
@@ -38,11 +39,11 @@ Fixpoint miss_e (bound : list ident) (e : env) (x : expr) : bool :=
 Fixpoint miss_pt (bound : list ident) (e : env) (p : pt) : bool :=
   match p with
   | PAtom _ _ d => miss_e bound e d
-  | PTable _ chans => existsb (existsb (miss_e bound e)) chans
+  | PTable chans => existsb (existsb (miss_e bound e)) (map snd chans)
   | PSeq subs => existsb (miss_pt bound e) subs
   | PRep c b => miss_e bound e c || miss_pt bound e b
   | PFor i a b s body => miss_e bound e a || miss_e bound e b || miss_e bound e s || miss_pt (i :: bound) e body
-  | PMap m b => existsb (fun xe => miss_e bound e (snd xe)) m || miss_pt (map fst m ++ bound) e b
+  | PMap m _ b => existsb (fun xe => miss_e bound e (snd xe)) m || miss_pt (map fst m ++ bound) e b
   | PMulti d subs => match d with Some x => miss_e bound e x | None => false end || existsb (miss_pt bound e) subs
   | PArith l r => miss_pt bound e l || miss_pt bound e r
   | PWrap b | PRev b | PSingle b => miss_pt bound e b
@@ -68,14 +69,14 @@ Definition check_corr (c : case) : bool :=
                   end) with
       | None => true
       | Some _ =>
-      match cp real p e with
+      match cp real (resolve idf p) e with
       | Inexact => true
       | Err k => match prog with IErr k' => errclass_eqb (class_of k) k' | _ => false end
       | Ok kids =>
           (* an empty program counts as zero: None and a program whose three durations are 0 are the same observation *)
           let model := match kids with
                        | [] => (0, Some 0, 0)
-                       | _ => (total kids, wf_duration (Node 1 kids), sum_pieces 1 (Node 1 kids))
+                       | _ => (total kids, to_wf (Node 1 kids), sum_pieces 1 (Node 1 kids))
                        end in
           match model, prog with
           | (ma, mb, mc), IProg a b c => Qeq_bool a ma && oq_eqb b mb && Qeq_bool c mc
@@ -90,7 +91,7 @@ Definition check_corr (c : case) : bool :=
   end.
 
 Definition excluded (c : case) : bool :=     (* float arithmetic takes part in a duration of the instantiated program *)
-  match c with CTpl p e _ _ => match cp real p e with Inexact => true | _ => false end | _ => false end.
+  match c with CTpl p e _ _ => match cp real (resolve idf p) e with Inexact => true | _ => false end | _ => false end.
 
 Fixpoint arith_seq_from (k : nat) (a s : Z) (l : list Z) : bool :=
   match l with
